@@ -237,19 +237,9 @@ class Check:
         """The exploration deadline counts from here: compile time (cold caches, scratch copies) must not eat the exploration budget."""
         self.t_explore = time.time()
 
-    def plan_rows(self, n):
-        """Number of harness runs the plan will make: no single run may then take more than 3x its fair share of what is
-        left, so that a row that is heavier than expected is reported as capped instead of starving all later rows."""
-        self.rows_left = n
-
     def remaining(self, floor=5.0):
         if self.deadline is None:
             return None
-        if getattr(self, "rows_left", None):
-            scale = float(os.environ.get("VERIF_DEADLINE_SCALE", "1"))
-            total = max(floor, self.deadline * scale - (time.time() - getattr(self, "t_explore", self.t0)))
-            share = max(floor, 3.0 * total / self.rows_left)
-            return min(total, share)
         # VERIF_DEADLINE_SCALE: maintenance runs (e.g. regenerating the witness list of a known finding) must not be capped
         return max(floor, self.deadline * float(os.environ.get("VERIF_DEADLINE_SCALE", "1")) - (time.time() - getattr(self, "t_explore", self.t0)))
 
@@ -268,8 +258,6 @@ class Check:
             if k in r:
                 b[k] = r[k]
         self.bounds.append(b)
-        if getattr(self, "rows_left", None):
-            self.rows_left = max(1, self.rows_left - 1)
         if capped:
             self.exhaustive = False
         always = {"crash", "crash-after-case", "hang", "exception"}
